@@ -70,7 +70,7 @@ def gen_queries(rng, pool):
     for i, p in enumerate(pool):
         if rng.random() < 0.3:
             qs.append(["getitem", rng.randrange(len(pool) + 1), p["id"]])
-    for arch in [None, "x86_64", "ppc64le", "src", "aarch64"]:
+    for arch in [None, "x86_64", "ppc64le", "src", "aarch64", "nosrc", "noarch", "bogus"]:
         for types in [[], ["variant"], ["optional", "addon"], ["variant", "optional", "addon", "layered-product"]]:
             for rec in [False, True]:
                 if rng.random() < 0.5:
